@@ -115,6 +115,8 @@ pub enum K {
     Timer(TimerK),
     Generic(GenK),
     Life(crate::life::LifeK),
+    Exec(crate::exec::ExecK),
+    Stream(crate::exec::StreamK),
     /// insertion failed before a kind-specific state made sense
     Failed,
 }
@@ -127,6 +129,8 @@ impl K {
             K::Timer(_) => "timer",
             K::Generic(_) => "generic",
             K::Life(_) => "lifecycle",
+            K::Exec(_) => "executor",
+            K::Stream(_) => "stream",
             K::Failed => "failed",
         }
     }
@@ -220,6 +224,10 @@ pub struct St {
     pub lifecycle_expected: Option<usize>,
     /// additional expected epoll entries (adapters, composite children)
     pub extra_table: Vec<(u64, u32, Option<i32>)>,
+    pub tasks: BTreeMap<Id, crate::exec::TaskM>,
+    pub adapters: BTreeMap<Id, crate::adapter::AdapterM>,
+    pub adapter_keys: BTreeMap<usize, Id>,
+    pub io_tasks: BTreeMap<Id, crate::adapter::IoTaskM>,
 }
 
 pub const KEY_SUB_MASK: usize = 0xFFFF;
